@@ -49,6 +49,8 @@ func main() {
 		cmdList()
 	case "lock":
 		os.Exit(cmdLock())
+	case "units":
+		cmdUnits()
 	case "seeded":
 		os.Exit(cmdSeeded(os.Args[2:]))
 	case "selftest":
@@ -125,6 +127,9 @@ func cmdVerify(args []string) {
 		w.Finish(u.VC)
 		units = append(units, u)
 	}
+	if *fn == "" || strings.Contains("structural", *fn) {
+		units = append(units, w.StructuralUnit())
+	}
 	for _, l := range w.Lemmas {
 		if *fn != "" && !strings.Contains("lemma "+l.Name, *fn) {
 			continue
@@ -147,7 +152,7 @@ func cmdVerify(args []string) {
 			}
 		}
 		for _, o := range u.VC.Obls {
-			if *prop != "" && !has(o.Props, *prop) {
+			if *prop != "" && !propOf(o, *prop) {
 				continue
 			}
 			obls = append(obls, o)
@@ -162,6 +167,9 @@ func cmdVerify(args []string) {
 			fmt.Printf("%-12s %-80s by=%-8s %.2fs %s  %s:%d\n", r.Status, r.Obl.Name, r.By, r.Wall, fmtAnswers(r.Answers), shortFile(r.Obl.Pos.Filename), r.Obl.Pos.Line)
 			if r.Status != "discharged" && r.Status != "cover-ok" {
 				fmt.Printf("             query: %s\n", r.QueryFile)
+				if r.Obl.Note != "" {
+					fmt.Printf("             note:  %s\n", r.Obl.Note)
+				}
 			}
 		}
 	}
